@@ -1,10 +1,167 @@
-"""Sigma abstraction: sums over rows as uninterpreted linear functionals (A-SUM, DESIGN 2.3)."""
+"""Sigma abstraction: sums over the rows of a (masked) generic array as linear combinations of uninterpreted row sums.
+
+For an array a over row space S with mask m and element e(i), the element is normalised to a polynomial whose monomials are
+    (row-independent factor) * (row-dependent factor)
+and, by linearity of finite sums,
+    sum_{i in S, m(i)} e(i)  =  sum_k  c_k * SUM[S, m, r_k]      with  SUM[S, m, 1] = count[S, m].
+SUM[...] are uninterpreted real constants keyed by the canonical row-dependent factor: two sums are related only through linearity
+(no other property of the rows is used), so anything proved holds for every finite population of rows.
+Division by row-dependent terms, or row-dependent conditionals, are kept as opaque row factors (still sound, less precise).
+"""
 from __future__ import annotations
+
+import hashlib
 
 import z3
 
 from .values import SV, CV, XV, EngineError, to_z, R, I, coerce
 
 
+def _mentions(z, var):
+    seen = set()
+    stack = [z]
+    while stack:
+        t = stack.pop()
+        if t.get_id() in seen:
+            continue
+        seen.add(t.get_id())
+        if z3.eq(t, var):
+            return True
+        stack.extend(t.children())
+    return False
+
+
+def _split(z, var):
+    """z (real/int term) as a list of (scalar_z, row_z) products: z == sum scalar*row; row_z is None for row-independent terms"""
+    k = z.decl().kind() if z3.is_app(z) else None
+    if not _mentions(z, var):
+        return [(z, None)]
+    if k == z3.Z3_OP_ADD:
+        out = []
+        for c in z.children():
+            out += _split(c, var)
+        return out
+    if k == z3.Z3_OP_SUB:
+        ch = z.children()
+        out = _split(ch[0], var)
+        for c in ch[1:]:
+            out += [(-s, r) for s, r in _split(c, var)]
+        return out
+    if k == z3.Z3_OP_UMINUS:
+        return [(-s, r) for s, r in _split(z.children()[0], var)]
+    if k == z3.Z3_OP_TO_REAL:
+        return [(z3.ToReal(s) if z3.is_int(s) else s, (z3.ToReal(r) if r is not None and z3.is_int(r) else r)) for s, r in _split(z.children()[0], var)]
+    if k == z3.Z3_OP_MUL:
+        acc = [(z3.RealVal(1), None)]
+        for c in z.children():
+            parts = _split(c, var)
+            new = []
+            for s1, r1 in acc:
+                for s2, r2 in parts:
+                    s = _mulz(s1, s2)
+                    r = r2 if r1 is None else (r1 if r2 is None else _mulz(r1, r2))
+                    new.append((s, r))
+            acc = new
+            if len(acc) > 64:
+                raise EngineError("Sigma: product expands into too many monomials")
+        return acc
+    if k == z3.Z3_OP_DIV:
+        num, den = z.children()
+        if not _mentions(den, var):
+            return [(_real(s) / _real(den), r) for s, r in _split(num, var)]
+        return [(z3.RealVal(1), z)]
+    return [(z3.RealVal(1), z)]
+
+
+def _real(z):
+    return z3.ToReal(z) if z3.is_int(z) else z
+
+
+def _mulz(a, b):
+    a, b = _real(a), _real(b)
+    if z3.is_rational_value(a) and a.numerator_as_long() == a.denominator_as_long():
+        return b
+    if z3.is_rational_value(b) and b.numerator_as_long() == b.denominator_as_long():
+        return a
+    return a * b
+
+
+def _canon(r):
+    """canonical key of a row factor (commutative products sorted)"""
+    r = z3.simplify(_real(r))
+    if z3.is_app(r) and r.decl().kind() == z3.Z3_OP_MUL:
+        return "*".join(sorted(c.sexpr() for c in r.children()))
+    return r.sexpr()
+
+
+def sum_const(space, mask_key, row):
+    key = hashlib.sha1((_canon(row)).encode()).hexdigest()[:10]
+    return z3.Real(f"SUM[{space.name},{mask_key},{key}]")
+
+
+def _under_mask(z, mask):
+    """rewrite conditionals of the row expression that the mask decides (rows outside the mask do not contribute to the sum)"""
+    if mask is True:
+        return z
+    cache = {}
+    s = z3.Solver()
+    s.set("timeout", 1000)
+    s.add(mask)
+
+    def decided(c):
+        s.push(); s.add(z3.Not(c)); r1 = s.check(); s.pop()
+        if r1 == z3.unsat:
+            return True
+        s.push(); s.add(c); r2 = s.check(); s.pop()
+        if r2 == z3.unsat:
+            return False
+        return None
+
+    def rw(t):
+        k = t.get_id()
+        if k in cache:
+            return cache[k]
+        if z3.is_app(t) and t.decl().kind() == z3.Z3_OP_ITE:
+            d = decided(t.arg(0))
+            r = rw(t.arg(1)) if d is True else rw(t.arg(2)) if d is False else None
+            if r is None:
+                r = z3.If(t.arg(0), rw(t.arg(1)), rw(t.arg(2)))
+        elif z3.is_app(t) and t.num_args() > 0 and not z3.is_quantifier(t):
+            ch = [rw(c) for c in t.children()]
+            r = t.decl()(*ch) if any(not z3.eq(a, b) for a, b in zip(ch, t.children())) else t
+        else:
+            r = t
+        cache[k] = r
+        return r
+    return rw(z)
+
+
 def sigma(it, a):
-    raise EngineError("sum over a generic array: Sigma abstraction not enabled for this contract")
+    """sum of a generic (masked) array"""
+    from .arrays import Arr, Series, _key, _count, _zb
+    if isinstance(a, Series):
+        a = a.arr()
+    if not isinstance(a, Arr):
+        raise EngineError("Sigma of a non-array")
+    e = a.e
+    if isinstance(e, XV):
+        raise EngineError("Sigma over values that may be NaN")
+    if isinstance(e, CV):
+        return CV(sigma(it, Arr(a.space, e.re, a.mask)), sigma(it, Arr(a.space, e.im, a.mask)))
+    if isinstance(e, (int, float)) and not isinstance(e, bool):
+        e = SV(z3.RealVal(e))
+    var = a.space.i
+    mask = a.mask if a.mask is True else z3.simplify(a.mask)
+    z = z3.simplify(_under_mask(z3.simplify(_real(to_z(e))), mask))
+    mkey = "T" if mask is True else _key(mask)
+    cnt = z3.ToReal(a.space.n) if mask is True else z3.ToReal(_count(it, a.space, mask))
+    total = z3.RealVal(0)
+    for s, r in _split(z, var):
+        if r is None:
+            total = total + _real(s) * cnt
+        else:
+            sc = sum_const(a.space, mkey, r)
+            it.ctx.facts.append(z3.Implies(cnt == 0, sc == 0))      # the empty sum
+            total = total + _real(s) * sc
+    it.ctx.ghost.setdefault("sigma", []).append((a.space.name, mkey))
+    return SV(z3.simplify(total))
